@@ -41,6 +41,7 @@ type BatchResult struct {
 	Started  int
 	// O8: the last run of the batch executed once more, alone, in a fresh worker process
 	AloneChecked bool
+	AloneRun     int    // which run (the last volume run of the batch if there is one, else the last run)
 	AloneHash    string // its result digest ("" if that process did not complete the run)
 }
 
@@ -202,8 +203,13 @@ func runBatches(b *Build, batches []Batch, workers int, perBatchTimeout time.Dur
 				if aloneCheck && r.ExitCode == 0 && r.Viol == nil && !r.TimedOut && bt.Runs > 1 && len(r.Done) == bt.Runs {
 					// O8: the same run without the history of the batch
 					k := bt.Runs - 1
-					a := runWorker(b, bt.Race, append(batchArgs(bt), "-only", fmt.Sprint(k)), prefix+"-alone", perBatchTimeout)
-					r.AloneChecked = true
+					for j := range r.Done {
+						if r.Done[j].Mode == "volume" && j > 0 {
+							k = j // quantities: its distinct values are walked backwards in the twin process
+						}
+					}
+					a := runWorker(b, bt.Race, append(batchArgs(bt), "-only", fmt.Sprint(k), "-backwards"), prefix+"-alone", perBatchTimeout)
+					r.AloneChecked, r.AloneRun = true, k
 					if a.ExitCode == 0 && len(a.Done) == 1 {
 						r.AloneHash = a.Done[0].ResHash
 					}
@@ -214,7 +220,7 @@ func runBatches(b *Build, batches []Batch, workers int, perBatchTimeout time.Dur
 				if stopOnViolation && (r.Viol != nil || r.ExitCode != 0) {
 					stop = true
 				}
-				if stopOnViolation && r.AloneChecked && r.AloneHash != "" && len(r.Done) > 0 && r.AloneHash != r.Done[len(r.Done)-1].ResHash {
+				if stopOnViolation && r.AloneChecked && r.AloneHash != "" && r.AloneRun < len(r.Done) && r.AloneHash != r.Done[r.AloneRun].ResHash {
 					stop = true // O8 difference: reported after the batches in flight have finished
 				}
 				mu.Unlock()
